@@ -5,6 +5,8 @@ import BiotiteModel.Proofs.C19Newick
 import BiotiteModel.Proofs.C19Dist
 import BiotiteModel.Proofs.C19Binary
 import BiotiteModel.Proofs.C19Upgma
+import BiotiteModel.Proofs.C19Rows
+import BiotiteModel.Proofs.C19NJAdd
 import BiotiteModel.Gen.C19
 /-!
 # C19 — property theorems (trees contain every taxon once and keep distances)
@@ -12,8 +14,9 @@ import BiotiteModel.Gen.C19
 Only property statements and non-vacuity examples; helper lemmas live in `Proofs/C19*.lean`.
 Everything quantifies over all inputs of the executable model (`Model/C19Tree.lean`,
 `Model/C19Cluster.lean`), which the correspondence harness ties to the Cython code.
-Not proved here (oracle on the real code only; see notes/C19.md): NJ recovers every additive
-metric; the link between the compositional distance matrix `T.rows` and `distanceTo`.
+Not proved here (see notes/C19.md): the cherry lemma of neighbour joining for more than four live
+taxa — `C19_nj_additive` carries it as the hypothesis `CherryLemma n`; for n ≥ 5 "NJ recovers every
+additive metric" therefore rests on the oracle on the real code.
 -/
 namespace BiotiteModel.C19
 
@@ -68,6 +71,85 @@ theorem C19_nj_total (n : Nat) (D : Nat → Nat → Rat) (h1 : allcloseSym n D =
     (h3 : anyNegative n D = false) : ∃ t, neighborJoining n D = .ok t :=
   nj_total n D h1 h2 h3
 
+/-- **NJ, branch lengths of a joined cherry.**  `node_dist_i + node_dist_j = d(i,j)` for any pair; when
+`i`, `j` form a cherry of the current matrix (`ConstDiff`: `d(i,k) − d(j,k)` is the same for every other
+live `k`) the two lengths are the three-point formulas `½(d(i,j) + d(i,k) − d(j,k))`,
+`½(d(i,j) + d(j,k) − d(i,k))` for *every* other live `k` — the true edge lengths of a tree metric.
+(Needs the live part of the matrix symmetric with zero diagonal, `n_rem_nodes` = number of live
+positions ≥ 3.) -/
+theorem C19_nj_join_lengths {n : Nat} {s : NState} (hm : NMetric n s) (hrem : s.nrem = liveCount n s.cl)
+    (h3 : 3 ≤ s.nrem) {i j k : Nat} (hi : i < n) (hj : j < n) (hij : i ≠ j)
+    (hci : s.cl i = false) (hcj : s.cl j = false) (hcd : ConstDiff n s i j)
+    (hk : k < n) (hck : s.cl k = false) (hki : k ≠ i) (hkj : k ≠ j) :
+    brI n s i j = 1 / 2 * (s.d i j + s.d i k - s.d j k) ∧
+    brJ n s i j = 1 / 2 * (s.d i j + s.d j k - s.d i k) ∧
+    brI n s i j + brJ n s i j = s.d i j :=
+  nj_join_lengths hm hrem h3 hi hj hij hci hcj hcd hk hck hki hkj
+
+/-- **NJ, reduction step.**  Joining a cherry keeps the loop invariant `NAInv` w.r.t. the original
+matrix `D`: the reduced matrix stays symmetric with zero diagonal, inside every live subtree the
+leaf-to-leaf distances are those of `D`, and two leaves of different live subtrees are at
+`depth + d(a,b) + depth`; i.e. the reduced matrix is the metric of the tree with the cherry
+contracted. -/
+theorem C19_nj_reduce_invariant {n : Nat} {D : Nat → Nat → Rat} {s : NState} (h : NAInv n D s)
+    (hrem : s.nrem = liveCount n s.cl) (h3 : 3 ≤ s.nrem) {i j : Nat} (hi : i < n) (hj : j < n)
+    (hij : i ≠ j) (hci : s.cl i = false) (hcj : s.cl j = false) (hcd : ConstDiff n s i j) :
+    NAInv n D (njMerge n s i j) :=
+  NAInv_merge h hrem h3 hi hj hij hci hcj hcd
+
+/-- **NJ recovers every path length — conditional on cherry selection** (partial: the classical
+lemma "the pair minimising the Q-criterion of an additive matrix is a cherry" is proved here only for
+four live taxa, `C19_nj_cherry_4`).  If in every state the loop reaches with more than three live
+taxa the selected pair is a cherry, then for the returned tree the a-th and b-th leaf (indices
+`x`, `y`) are at `distance_to` exactly `D x y`, for all `a < b`. -/
+theorem C19_nj_additive_of_cherry (n : Nat) (D : Nat → Nat → Rat)
+    (hsym : ∀ a b, a < n → b < n → D a b = D b a) (hdiag : ∀ a, a < n → D a a = 0)
+    (hsel : ∀ s', Reach n (NState.init n D) s' → 3 < s'.nrem → CherrySel n s')
+    (t : T Rat) (h : neighborJoining n D = .ok t) (a b : Nat) (hab : a < b) (hb : b < t.leaves.length) :
+    ∃ (x y : Nat) (pa pb : List Nat), t.leafPaths[a]? = some (x, pa) ∧ t.leafPaths[b]? = some (y, pb) ∧
+      distanceTo t false pa pb = .ok (D x y) :=
+  intra_distance D t (nj_additive_of_cherry n D hsym hdiag hsel t h) a b hab hb
+
+/-- **NJ, the reduced matrix of a joined cherry is again additive** (four-point condition on the live
+taxa is preserved). -/
+theorem C19_nj_reduce_additive {n : Nat} {s : NState} (hm : NMetric n s) (hrem : s.nrem = liveCount n s.cl)
+    (h3 : 3 ≤ s.nrem) (hfp : FourPoint n s) {i j : Nat} (hi : i < n) (hj : j < n) (hij : i ≠ j)
+    (hci : s.cl i = false) (hcj : s.cl j = false) (hcd : ConstDiff n s i j) :
+    FourPoint n (njMerge n s i j) :=
+  fourPoint_merge hm hrem h3 hfp hi hj hij hci hcj hcd
+
+/-- **Cherry lemma for four live taxa**: on a symmetric, zero-diagonal matrix satisfying the four-point
+condition, the pair minimising the corrected distance (Q-criterion) is a cherry.  (The general case,
+more than four live taxa — Saitou–Nei / Studier–Keppler — is *not* proved; it is the hypothesis
+`CherryLemma n` of `C19_nj_additive`.) -/
+theorem C19_nj_cherry_4 {n : Nat} {s : NState} (hm : NMetric n s) (hrem : s.nrem = liveCount n s.cl)
+    (h4 : s.nrem = 4) (hfp : FourPoint n s) : CherrySel n s :=
+  nj_cherry_4 hm hrem h4 hfp
+
+/-- **NJ reproduces every leaf-to-leaf path length of an additive matrix — reduced to the cherry
+lemma** (partial).  For `n ≥ 4`, `D` symmetric with zero diagonal and the four-point condition: *if*
+`CherryLemma n` holds (in every loop state with a symmetric, zero-diagonal, four-point matrix and more
+than three live taxa the Q-minimal pair is a cherry), then for the returned tree the a-th and b-th
+leaf (indices `x`, `y`) are at `distance_to` exactly `D x y`.  Everything else of the classical proof
+is discharged here: branch lengths, reduction keeps metric + four-point + the tree/matrix invariant,
+the final three-way join, the induction over the loop. -/
+theorem C19_nj_additive (n : Nat) (D : Nat → Nat → Rat) (H : CherryLemma n)
+    (hsym : ∀ a b, a < n → b < n → D a b = D b a) (hdiag : ∀ a, a < n → D a a = 0)
+    (hfp : FourPoint n (NState.init n D)) (hn : 4 ≤ n) (t : T Rat) (h : neighborJoining n D = .ok t)
+    (a b : Nat) (hab : a < b) (hb : b < t.leaves.length) :
+    ∃ (x y : Nat) (pa pb : List Nat), t.leafPaths[a]? = some (x, pa) ∧ t.leafPaths[b]? = some (y, pb) ∧
+      distanceTo t false pa pb = .ok (D x y) :=
+  intra_distance D t (nj_additive_of_lemma n D H hsym hdiag hfp hn t h) a b hab hb
+
+/-- **Quartets (unconditional)**: NJ reproduces every path length of every additive 4×4 matrix. -/
+theorem C19_nj_additive_4 (D : Nat → Nat → Rat)
+    (hsym : ∀ a b, a < 4 → b < 4 → D a b = D b a) (hdiag : ∀ a, a < 4 → D a a = 0)
+    (hfp : FourPoint 4 (NState.init 4 D)) (t : T Rat) (h : neighborJoining 4 D = .ok t)
+    (a b : Nat) (hab : a < b) (hb : b < t.leaves.length) :
+    ∃ (x y : Nat) (pa pb : List Nat), t.leafPaths[a]? = some (x, pa) ∧ t.leafPaths[b]? = some (y, pb) ∧
+      distanceTo t false pa pb = .ok (D x y) :=
+  intra_distance D t (nj_additive_4 D hsym hdiag hfp t h) a b hab hb
+
 /-- The minimum search returns a live pair `j < i < n` whose entry is minimal among all live
 pairs (first such pair in scan order because the comparison is strict). -/
 theorem C19_scan_min (val : Nat → Nat → Rat) (cl : Nat → Bool) (n : Nat) (m : Rat) (i j : Nat)
@@ -110,6 +192,28 @@ theorem C19_binary_preserves_distances (t : T Rat) (hwf : t.WF = true) (ht : mkT
     ∃ b, asBinary t = .ok b ∧ b.isBin = true ∧ b.leaves = t.leaves ∧
       b.rows.map (·.2) = t.rows.map (·.2) :=
   asBinary_spec t hwf ht
+
+/-- **`T.rows` is the matrix of the public distance query.**  With `p₀, p₁, …` the leaf paths of
+`t` in depth-first order: for `a < b`, entry `b - a - 1` of row `a` of `t.rows` exists and equals
+`distance_to(leaf a, leaf b)` (hence `Tree.get_distance` of their indices). -/
+theorem C19_rows_eq_distance (t : T Rat) (a b : Nat) (hab : a < b) (hb : b < t.leafPaths.length) :
+    ∃ (pa pb : List Nat) (v : Rat),
+      (t.leafPaths.map (·.2))[a]? = some pa ∧ (t.leafPaths.map (·.2))[b]? = some pb ∧
+      ((t.rows)[a]?).bind (fun r => r.2[b - a - 1]?) = some v ∧
+      distanceTo t false pa pb = .ok v :=
+  rows_eq_distance t a b hab hb
+
+/-- **`as_binary` keeps every leaf-to-leaf `distance_to` answer** (the binary theorem in terms of the
+public query): same leaves in the same order, binary, and for all `a < b` the a-th and b-th leaf are
+at the same `distance_to` in the result as in the original. -/
+theorem C19_binary_distance_queries (t : T Rat) (hwf : t.WF = true) (ht : mkTree t = .ok t)
+    (a b : Nat) (hab : a < b) (hb : b < t.leaves.length) :
+    ∃ (bt : T Rat) (pa pb qa qb : List Nat) (v : Rat), asBinary t = .ok bt ∧ bt.isBin = true ∧
+      bt.leaves = t.leaves ∧
+      (t.leafPaths.map (·.2))[a]? = some pa ∧ (t.leafPaths.map (·.2))[b]? = some pb ∧
+      (bt.leafPaths.map (·.2))[a]? = some qa ∧ (bt.leafPaths.map (·.2))[b]? = some qb ∧
+      distanceTo t false pa pb = .ok v ∧ distanceTo bt false qa qb = .ok v :=
+  asBinary_distance_queries t hwf ht a b hab hb
 
 /-- **Newick round trip.**  For every well-formed tree of any arity (one-child nodes included)
 that `Tree()` accepts, every branch-length codec whose tokens read back (`float(repr(x)) == x`) and
@@ -181,6 +285,25 @@ example : Good exampleD (.node (.cons 2 (.leaf 2) (.cons 1 (.node (.cons 1 (.lea
   refine ⟨0, 1, rfl, ⟨0, 0, rfl, rfl, by norm_num, by norm_num, ?_⟩, by norm_num, by norm_num, ?_⟩
   · simp [avg, pairSum, T.leaves, F.leaves, exampleD]
   · simp [avg, pairSum, T.leaves, F.leaves, exampleD]; norm_num
+/-- The quartet `01|23` meets the hypotheses of `C19_nj_additive_4` (symmetric, zero diagonal,
+four-point condition). -/
+example : (∀ a b, a < 4 → b < 4 → exampleD4 a b = exampleD4 b a) ∧ (∀ a, a < 4 → exampleD4 a a = 0) ∧
+    FourPoint 4 (NState.init 4 exampleD4) := by
+  have k1 : ∀ a, a < 4 → ∀ b, b < 4 → exampleD4 a b = exampleD4 b a := by decide +kernel
+  have k2 : ∀ a, a < 4 → exampleD4 a a = 0 := by decide +kernel
+  have k3 : ((List.range 4).all fun a => (List.range 4).all fun b => (List.range 4).all fun c =>
+      (List.range 4).all fun e =>
+        decide (exampleD4 a b + exampleD4 c e ≤ exampleD4 a c + exampleD4 b e) ||
+        decide (exampleD4 a b + exampleD4 c e ≤ exampleD4 a e + exampleD4 b c) ||
+        decide (a = b) || decide (a = c) || decide (a = e) || decide (b = c) || decide (b = e) ||
+        decide (c = e)) = true := by decide +kernel
+  refine ⟨fun a b ha hb => k1 a ha b hb, k2, ?_⟩
+  intro a b c e ha hb hc he _ _ _ _ h1 h2 h3 h4 h5 h6
+  simp only [List.all_eq_true, List.mem_range] at k3
+  have := k3 a ha b hb c hc e he
+  simp only [Bool.or_eq_true, decide_eq_true_eq, h1, h2, h3, h4, h5, h6, or_false] at this
+  exact this
+
 /-- All taxa identical: the hypotheses of `C19_nj_total` hold and the loop returns all five leaves. -/
 example : allcloseSym 5 (fun _ _ => 0) = true ∧ anyNegative 5 (fun _ _ => 0) = false ∧
     (njLoop 5 5 (NState.init 5 (fun _ _ => 0))).map (fun t => t.leaves.length) = some 5 := by decide +kernel
@@ -198,6 +321,9 @@ example : exampleQ.WF = true ∧ (T.sub? exampleQ [0, 2]).isSome ∧ (T.sub? exa
     commonPrefix [0, 2] [1, 0] = [] := by decide
 example : (exampleQ.rows.map (·.2)).map (·.length) = [3, 2, 1, 0] ∧
     ((exampleQ.bin 0).1).leaves = [2, 0, 3, 1] ∧ ((exampleQ.bin 0).1).isBin = true := by decide +kernel
+
+example : exampleQ.leafPaths.map (·.2) = [[0, 0], [0, 1], [0, 2], [1, 0]] ∧ mkTree exampleQ = .ok exampleQ := by
+  decide +kernel
 
 /-- A codec meeting the hypotheses of the round trip: natural numbers in decimal. -/
 def natCodec : Codec Nat where
